@@ -10,7 +10,9 @@ MINRES (symmetric systems only)}.
 Oracle: dense residual.  Nonsingular (cond_2 <= 1e3, checked densely): finite result with
 LU: |Ax-b| <= 1e-12 n (|A|_F |x| + |b|); GMRES: |Ax-b| <= 1.01 max(1e-5 |b|, 1e-8) (its stated
 rtol/atol); MINRES: scipy's stated stopping rule rnorm <= rtol * Anorm_est * |x| bounded soundly
-by 4e-5 sqrt(3(5n+1)|A|_2^2 + |b - A x0|^2) |x|.  Singular: LU raises LinearSolverError; GMRES
+by 4e-5 sqrt(3(5n+1)|A|_2^2 + |b - A x0|^2) |x|, or its least-squares stopping rule |A r| <= rtol * Anorm_est * |r|
+(both end with info == 0; found by the thorough tier: a 7x7 system, cond 320, where MINRES stops after two iterations
+with |r| = 0.91 |b| because its norm estimate is dominated by the initial residual).  Singular: LU raises LinearSolverError; GMRES
 raises LinearSolverError or returns a finite vector meeting its tolerance.  No solver may raise
 anything but LinearSolverError.
 """
@@ -210,6 +212,13 @@ def check(case):
         bound = 4 * 1e-5 * np.sqrt(3 * (5 * n + 1) * np.linalg.norm(A, 2) ** 2 + r0**2) * float(np.linalg.norm(x)) + 1e-300
         if nb == 0.0:
             bound = max(bound, 1e-300)
+    if res > bound and solver_name == "MINRES":
+        # scipy's MINRES also stops (info == 0) at its least-squares criterion |A r| <= rtol * Anorm_est * |r|
+        # ("a least-squares solution was found, given rtol"); Anorm_est is bounded as above
+        rvec = At @ x - b
+        if float(np.linalg.norm(At.T @ rvec)) <= 4 * 1e-5 * np.sqrt(3 * (5 * n + 1) * np.linalg.norm(A, 2) ** 2 + r0**2) * float(np.linalg.norm(rvec)):
+            labels.append("minres_least_squares_stop")
+            res = 0.0
     if res > bound:
         return violation(f"residual|{sig0}", f"{solver_name}: |A{'^T' if case['trans'] else ''}x-b|={res:.3e} > {bound:.3e} (n={n}, |b|={nb:.3e}, guess={case['guess']}, fmt={case['fmt']})", labels)
     nontriv = n >= 3 and (case["trans"] or case["guess"] != "none" or case["fmt"] != "csc" or singular)
